@@ -205,6 +205,9 @@ type rng struct{ lo, hi int64 }
 
 func partition(start, stop, batch int64) []rng {
 	var rs []rng
+	if batch < 1 {
+		return nil
+	}
 	for s := start; s < stop; s += batch {
 		e := s + batch
 		if e > stop {
@@ -572,6 +575,16 @@ func oracle(sc *scenario, o *outcome) (key, desc string) {
 	if o.hung {
 		return "scan-hang", fmt.Sprintf("Scan did not return within the watchdog time (start=%d stop=%d batch=%d F=%d M=%d)", sc.Start, sc.Stop, sc.Batch, sc.F, sc.M)
 	}
+	if sc.Batch < 1 {
+		// a non-positive batch size cannot partition anything: Scan must say so and do nothing
+		switch {
+		case o.err == nil:
+			return "batch-not-rejected", fmt.Sprintf("Scan with BatchSize %d returned no error", sc.Batch)
+		case o.ret != 0 || len(o.col.per) > 0 || len(o.reqs) > 0:
+			return "batch-not-rejected", fmt.Sprintf("Scan with BatchSize %d returned %d after %d get-entries ranges and %d callbacks", sc.Batch, o.ret, len(o.reqs), len(o.col.per))
+		}
+		return "", ""
+	}
 	if o.err != nil {
 		return "scan-error", "Scan returned an error: " + o.err.Error()
 	}
@@ -696,7 +709,7 @@ func coqCase(sc *scenario, o *outcome) string {
 		return vh.N(uint64(x))
 	}
 	in := vh.App("mkIn", vh.Bool(sc.PrecertOnly), vh.Bool(sc.IgnoreParse), vh.NI(sc.Matcher),
-		vh.N(uint64(sc.Start)), vh.N(uint64(sc.Stop)), vh.N(uint64(sc.Batch)), vh.NI(sc.F), vh.NI(sc.M),
+		vh.N(uint64(sc.Start)), vh.N(uint64(sc.Stop)), vh.N(uint64(maxi64(sc.Batch, 0))), vh.NI(sc.F), vh.NI(sc.M),
 		vh.List0(kinds, "N"), vh.List0(script, "(list answer)"))
 	ob := vh.App("mkObs", vh.List0(reqs, "(N * list N)"), vh.List0(cbs, "(N * N * N * N * bool)"), vh.List0(order, "N"),
 		u(o.certs), u(o.precerts), u(o.unparsable), u(o.nonFatal), u(o.ret), vh.Bool(o.err == nil && !o.hung))
@@ -704,6 +717,13 @@ func coqCase(sc *scenario, o *outcome) string {
 }
 
 var hangSeen bool
+
+func maxi64(a, b int64) int64 {
+	if a > b {
+		return a
+	}
+	return b
+}
 
 func runCase(c *vh.Ctx, sc *scenario, stream string) {
 	if hangSeen {
@@ -852,6 +872,11 @@ func gen(c *vh.Ctx) {
 			runCase(c, sc, "case")
 		}
 	}
+	for _, b := range []int64{0, -3} { // non-positive batch size: an error, no requests, no callbacks
+		sc := genScenario(c, 1+c.Intn(2), 1+c.Intn(2), 1, 5, 0)
+		sc.Batch, sc.Script = b, nil
+		runCase(c, sc, "case")
+	}
 	{ // empty range with start beyond the tree
 		sc := genScenario(c, 2, 2, 3, 0, 0)
 		sc.Start, sc.Stop, sc.UseMax = 17, 17, true
@@ -903,7 +928,9 @@ func replay(c *vh.Ctx, raw json.RawMessage) {
 	if err := json.Unmarshal(raw, &sc); err != nil {
 		panic(err)
 	}
-	if sc.Batch < 1 || sc.F < 1 || sc.M < 1 || sc.Stop < sc.Start || int64(len(sc.Kinds)) != sc.Stop-sc.Start {
+	var probe map[string]json.RawMessage
+	json.Unmarshal(raw, &probe)
+	if _, isScenario := probe["kinds"]; !isScenario {
 		// a driver-written replay of a race-detector report ({"seed":..,"tier":..,"run":"race"}):
 		// rerun the -race build that the driver puts next to this binary
 		var rr struct {
